@@ -58,7 +58,7 @@ def pay(A, base, RA, roff, i):
 
 class TapeBridge:
     name = "tape_bridge"
-    props = ("C06", "C14")
+    props = ("C06", "C14", "C09")
     max_paths = 400
 
     def cells(self, tier):
@@ -355,17 +355,17 @@ class TapeBridge:
         known = [T.rf_ground(A, n, p0, H, w1), w1.base(), w1.blockhdr(j), w1.blockhdr(j - 1), w1.filler(j, q), w1.payload(j, t),
                  T.rf_filler(A, p0, H, q)]
         hyp = And(*(known + ag))
-        env.ensure(key + "::induction:ground-part-stable", Implies(hyp, And(T.rf_ground(A2, n2, p0, H, w2), w2.base())), ("C06",), internal=INTERNAL)
-        env.ensure(key + "::induction:filler-before-name-file-stable", Implies(hyp, T.rf_filler(A2, p0, H, q)), ("C06",), internal=INTERNAL)
-        env.ensure(key + "::induction:block-header-stable", Implies(hyp, w2.blockhdr(j)), ("C06",), internal=INTERNAL)
-        env.ensure(key + "::induction:filler-between-blocks-stable", Implies(hyp, w2.filler(j, q)), ("C06",), internal=INTERNAL)
-        env.ensure(key + "::induction:payload-map-stable", Implies(hyp, w2.payload(j, t)), ("C06",), internal=INTERNAL)
+        env.ensure(key + "::induction:ground-part-stable", Implies(hyp, And(T.rf_ground(A2, n2, p0, H, w2), w2.base())), ("C06", "C09"), internal=INTERNAL)
+        env.ensure(key + "::induction:filler-before-name-file-stable", Implies(hyp, T.rf_filler(A2, p0, H, q)), ("C06", "C09"), internal=INTERNAL)
+        env.ensure(key + "::induction:block-header-stable", Implies(hyp, w2.blockhdr(j)), ("C06", "C09"), internal=INTERNAL)
+        env.ensure(key + "::induction:filler-between-blocks-stable", Implies(hyp, w2.filler(j, q)), ("C06", "C09"), internal=INTERNAL)
+        env.ensure(key + "::induction:payload-map-stable", Implies(hyp, w2.payload(j, t)), ("C06", "C09"), internal=INTERNAL)
         # non-vacuity: the hypotheses are satisfiable with a non-trivial file (one data block of 2 bytes) and a real extension
         s = z3.Solver()
         s.set("timeout", 20000)
         zb = lambda c: c.e if hasattr(c, "e") else c
         s.add(zb(hyp), zb(And(K == 1, j == 0, n2 > n, t == 1, w1.LN(0) == 2)), *[zb(c) for c in p.pc])
-        env.ensure(key + "::induction:hypotheses-satisfiable", s.check() == z3.sat, ("C06",), internal="vacuous lemma")
+        env.ensure(key + "::induction:hypotheses-satisfiable", s.check() == z3.sat, ("C06", "C09"), internal="vacuous lemma")
 
 
 LEMMAS = [TapeBridge()]
